@@ -13,11 +13,18 @@ PROGS = {
     "Pe": ((3,), {"w1": (1,), "w2": (2,)}),
     "Pf": ((), (2, 1, 2)),
     "Pg": ((), {"w1": (4,), "w2": (1,)}),      # partial flush of the head, then a coalescing write
+    # Sendfile (negative = Sendfile of that many bytes): short sendfile + EAGAIN, a file queued behind a backlog, a write
+    # behind a file entry (no coalescing), two files on one connection, a file sent from the open callback
+    "Sa": ((), {"w1": (-3, -1), "w2": (1,)}),
+    "Sb": ((), {"w1": (-3,), "w2": (-2, 1)}),
+    "Sc": ((-3,), (1,)),
+    "Sd": ((), (3, -2, 1)),
     # C17 (MaxWB = 3): fill, overflow attempts, drain, refill
     "Qa": ((), (2, 2, 1)),
     "Qb": ((), (3, 1, 3)),
     "Qc": ((), (4, 1)),
     "Qd": ((), {"w1": (2, 1), "w2": (2,)}),
+    "Qe": ((), (2, -3, 2, 1)),                  # a queued file is not counted against the bound
 }
 
 
@@ -31,12 +38,17 @@ def configs(focus, tier):
                     progs += [("Pc", "W1"), ("Pd", "W2"), ("Pe", "W2"), ("Pf", "W1"), ("Pg", "W2")]
                 elif transport == "tcp":
                     progs += [("Pd", "W2"), ("Pg", "W2")]
+                if transport == "tcp":
+                    progs += [("Sa", "W2"), ("Sc", "W1")]
+                    if tier == "thorough":
+                        progs += [("Sb", "W2"), ("Sd", "W1")]
                 for prog, writers in progs:
                     out.append(dict(mode=mode, transport=transport, sndcap=2, maxwb=0, writers=writers, prog=prog,
                                     maxin=1, rdbuf=2, maxread=2))
     else:
         for mode in ("LT", "ET", "OS"):
             progs = [("Qa", "W1"), ("Qb", "W1")]
+            progs += [("Qe", "W1")]
             if tier == "thorough":
                 progs += [("Qc", "W1"), ("Qd", "W2")]
             for prog, writers in progs:
